@@ -362,6 +362,299 @@ harness! {
     }
 }
 
+
+// ---------------------------------------------------------------- C03 / C04 / C37: update_clock against callee contracts
+use super::matrix::{Matrix, Vector};
+
+static SEL_N: AtomicU8 = AtomicU8::new(255);
+static SEL_ID0: AtomicU64 = AtomicU64::new(0);
+static SEL_ID1: AtomicU64 = AtomicU64::new(0);
+static SEL_RETURN_ALL: AtomicBool = AtomicBool::new(false);
+static COMB_N: AtomicU8 = AtomicU8::new(255);
+static COMB_LEAP: AtomicU8 = AtomicU8::new(255); // 255 = None, else leap_code
+static PROGRESSED: AtomicU8 = AtomicU8::new(0);
+
+fn leap_from(c: u8) -> NtpLeapIndicator {
+    match c {
+        0 => NtpLeapIndicator::NoWarning,
+        1 => NtpLeapIndicator::Leap61,
+        2 => NtpLeapIndicator::Leap59,
+        3 => NtpLeapIndicator::Unknown,
+        _ => NtpLeapIndicator::Unsynchronized,
+    }
+}
+
+/// contract stand-in for select::select (its own contract: c03_*select* harnesses in select.rs):
+/// records the candidate list it is given; returns either nothing or all candidates.
+fn select_stub(
+    _sc: &SynchronizationConfig,
+    _ac: &AlgorithmConfig,
+    candidates: &[SourceSnapshot],
+) -> Vec<SourceSnapshot> {
+    SEL_N.store(candidates.len() as u8, Relaxed);
+    if candidates.len() > 0 {
+        SEL_ID0.store(candidates[0].index.0, Relaxed);
+    }
+    if candidates.len() > 1 {
+        SEL_ID1.store(candidates[1].index.0, Relaxed);
+    }
+    if SEL_RETURN_ALL.load(Relaxed) {
+        candidates.to_vec()
+    } else {
+        Vec::new()
+    }
+}
+
+/// contract stand-in for combiner::combine: None iff the selection is empty; the estimate is a
+/// fixed quiescent one (no steering needed); the leap vote is whatever the harness chose.
+fn combine_stub(selection: &[SourceSnapshot], _ac: &AlgorithmConfig) -> Option<combiner::Combine> {
+    COMB_N.store(selection.len() as u8, Relaxed);
+    let first = selection.first()?;
+    let l = COMB_LEAP.load(Relaxed);
+    Some(combiner::Combine {
+        estimate: KalmanState {
+            state: Vector::new_vector([0.0, 0.0]),
+            uncertainty: Matrix::new([[1e-6, 0.0], [0.0, 1e-12]]),
+            time: first.state.time,
+        },
+        sources: vec![first.index],
+        delay: NtpDuration::ZERO,
+        leap_indicator: if l == 255 { None } else { Some(leap_from(l)) },
+    })
+}
+
+/// TimeSnapshot::root_dispersion is only forwarded to NtpClock::error_estimate_update (float-heavy:
+/// powi, sqrt); irrelevant to the leap/selection obligations.
+fn root_dispersion_stub(_t: &TimeSnapshot, _now: NtpTimestamp) -> NtpDuration {
+    dur(kani::any())
+}
+
+fn progress_time_stub(s: &KalmanState, time: NtpTimestamp, _wander: f64, _period: Option<f64>) -> KalmanState {
+    PROGRESSED.store(PROGRESSED.load(Relaxed).saturating_add(1), Relaxed);
+    KalmanState { state: s.state, uncertainty: s.uncertainty, time }
+}
+
+fn any_snapshot(id: u64, t: NtpTimestamp) -> SourceSnapshot {
+    SourceSnapshot {
+        index: ClockId(id),
+        state: KalmanState {
+            state: Vector::new_vector([kani::any(), kani::any()]),
+            uncertainty: Matrix::new([[kani::any(), kani::any()], [kani::any(), kani::any()]]),
+            time: t,
+        },
+        wander: kani::any(),
+        delay: kani::any(),
+        period: if kani::any() { Some(kani::any()) } else { None },
+        source_uncertainty: dur(kani::any()),
+        source_delay: dur(kani::any()),
+        leap_indicator: leap_from(kani::any::<u8>() % 5),
+        last_update: t,
+    }
+}
+
+/// controller with the single registered source 11 (with or without snapshot, usable or not)
+fn controller_with_one_source(time: NtpTimestamp) -> (KalmanClockController<RecClock>, bool, bool) {
+    let mut c = any_controller();
+    let has: bool = kani::any();
+    let usable: bool = kani::any();
+    let back0: i64 = kani::any();
+    kani::assume(back0 >= 0);
+    let s0 = if has { Some(any_snapshot(11, time - dur(back0))) } else { None };
+    c.sources.insert(ClockId(11), (s0, usable));
+    c.desired_freq = 0.0;
+    (c, has, usable)
+}
+
+struct TwoSources {
+    has: [bool; 2],
+    usable: [bool; 2],
+}
+/// controller with the registered sources 11 and 22: each with or without a snapshot, usable or not
+fn controller_with_two_sources(time: NtpTimestamp) -> (KalmanClockController<RecClock>, TwoSources) {
+    let mut c = any_controller();
+    let ts = TwoSources { has: [kani::any(), kani::any()], usable: [kani::any(), kani::any()] };
+    // snapshots are not in the future of `time`
+    let back0: i64 = kani::any();
+    let back1: i64 = kani::any();
+    kani::assume(back0 >= 0 && back1 >= 0);
+    let s0 = if ts.has[0] { Some(any_snapshot(11, time - dur(back0))) } else { None };
+    let s1 = if ts.has[1] { Some(any_snapshot(22, time - dur(back1))) } else { None };
+    c.sources.insert(ClockId(11), (s0, ts.usable[0]));
+    c.sources.insert(ClockId(22), (s1, ts.usable[1]));
+    c.desired_freq = 0.0;
+    (c, ts)
+}
+
+/// C03 / C37: the candidates handed to selection are exactly the registered sources that have a
+/// snapshot and were last reported usable; with an empty selection nothing touches the clock and
+/// nothing observable changes.  bounded: 2 registered sources.
+harness! {
+    #[kani::stub(super::select::select, select_stub)]
+    #[kani::stub(super::combiner::combine, combine_stub)]
+    #[kani::stub(super::source::KalmanState::progress_time, progress_time_stub)]
+    #[kani::stub(std::process::exit, exit_stub)]
+    #[kani::unwind(4)]
+    fn c03_tb_update_clock_only_usable_candidates_two_sources() {
+        let time = NtpTimestamp::from_bits(kani::any());
+        let (mut c, ts) = controller_with_two_sources(time);
+        let startup = c.in_startup;
+        let td = c.timedata;
+        SEL_RETURN_ALL.store(false, Relaxed);
+        let upd = c.update_clock(time);
+        let want0 = ts.has[0] && ts.usable[0];
+        let want1 = ts.has[1] && ts.usable[1];
+        let n = SEL_N.load(Relaxed);
+        assert!(n == (want0 as u8) + (want1 as u8));
+        if want0 { assert!(SEL_ID0.load(Relaxed) == 11); }
+        if !want0 && want1 { assert!(SEL_ID0.load(Relaxed) == 22); }
+        if want0 && want1 { assert!(SEL_ID1.load(Relaxed) == 22); }
+        // no consensus => the clock is not touched at all and no state changes
+        assert!(STEPS.load(Relaxed) == 0 && FREQS.load(Relaxed) == 0 && LEAPS.load(Relaxed) == 0 && ERR_UPDATES.load(Relaxed) == 0);
+        assert!(upd.used_sources.is_none() && upd.source_message.is_none() && upd.next_update.is_none());
+        assert!(c.in_startup == startup);
+        assert!(c.timedata == td);
+        kani::cover!(n == 2, "two candidates reachable");
+        kani::cover!(n == 0 && ts.has[0] && ts.has[1], "all unusable reachable");
+    }
+}
+
+harness! {
+    #[kani::stub(super::select::select, select_stub)]
+    #[kani::stub(super::combiner::combine, combine_stub)]
+    #[kani::stub(super::source::KalmanState::progress_time, progress_time_stub)]
+    #[kani::stub(std::process::exit, exit_stub)]
+    #[kani::unwind(3)]
+    fn c03_b_update_clock_only_usable_candidates_no_consensus_no_steer() {
+        let time = NtpTimestamp::from_bits(kani::any());
+        let (mut c, has, usable) = controller_with_one_source(time);
+        let startup = c.in_startup;
+        let td = c.timedata;
+        SEL_RETURN_ALL.store(false, Relaxed);
+        let upd = c.update_clock(time);
+        let n = SEL_N.load(Relaxed);
+        assert!(n == (has && usable) as u8);
+        if n == 1 { assert!(SEL_ID0.load(Relaxed) == 11); }
+        // no consensus => the clock is not touched at all and no state changes
+        assert!(STEPS.load(Relaxed) == 0 && FREQS.load(Relaxed) == 0 && LEAPS.load(Relaxed) == 0 && ERR_UPDATES.load(Relaxed) == 0);
+        assert!(upd.used_sources.is_none() && upd.source_message.is_none() && upd.next_update.is_none());
+        assert!(c.in_startup == startup);
+        assert!(c.timedata == td);
+        kani::cover!(n == 1, "candidate reachable");
+        kani::cover!(n == 0 && has, "unusable source with snapshot reachable");
+    }
+}
+
+/// C04 link: the indicator handed to the kernel / advertised is exactly the vote over the
+/// SELECTION (Some(l) => status_update(l) once and stored; None => previous indicator kept).
+harness! {
+    #[kani::stub(super::select::select, select_stub)]
+    #[kani::stub(super::combiner::combine, combine_stub)]
+    #[kani::stub(super::source::KalmanState::progress_time, progress_time_stub)]
+    #[kani::stub(crate::system::TimeSnapshot::root_dispersion, root_dispersion_stub)]
+    #[kani::stub(std::process::exit, exit_stub)]
+    #[kani::unwind(4)]
+    fn c04_b_update_clock_applies_vote_or_keeps_previous() {
+        let time = NtpTimestamp::from_bits(kani::any());
+        let (mut c, has, usable) = controller_with_one_source(time);
+        kani::assume(has && usable);
+        let vote: u8 = kani::any();
+        kani::assume(vote <= 2 || vote == 255);
+        COMB_LEAP.store(vote, Relaxed);
+        SEL_RETURN_ALL.store(true, Relaxed);
+        let prev = c.timedata.leap_indicator;
+        c.timedata.root_variance_base = 0.0;
+        let upd = c.update_clock(time);
+        // combine saw exactly what select returned
+        assert!(COMB_N.load(Relaxed) == SEL_N.load(Relaxed));
+        if vote == 255 {
+            assert!(LEAPS.load(Relaxed) == 0);
+            assert!(c.timedata.leap_indicator == prev);
+        } else {
+            assert!(LEAPS.load(Relaxed) == 1 && LEAP_VAL.load(Relaxed) == vote);
+            assert!(c.timedata.leap_indicator == leap_from(vote));
+        }
+        assert!(!c.in_startup);
+        assert!(upd.used_sources.is_some());
+        assert!(STEPS.load(Relaxed) == 0);
+        kani::cover!(vote == 2, "leap59 vote reachable");
+        kani::cover!(vote == 255, "no majority reachable");
+    }
+}
+
+/// C37 (a): measurements and usability reports of a source that is not (or no longer) registered
+/// are ignored: default update, no state change, selection never runs, clock untouched;
+/// remove_source really removes.  bounded: 1 remaining + 1 removed source.
+harness! {
+    #[kani::stub(super::select::select, select_stub)]
+    #[kani::stub(super::combiner::combine, combine_stub)]
+    #[kani::stub(super::source::KalmanState::progress_time, progress_time_stub)]
+    #[kani::stub(std::process::exit, exit_stub)]
+    #[kani::unwind(4)]
+    fn c37_b_unregistered_or_removed_sources_are_ignored() {
+        let time = NtpTimestamp::from_bits(kani::any());
+        let mut c = any_controller();
+        let usable11: bool = kani::any();
+        c.sources.insert(ClockId(11), (None, usable11));
+        c.sources.insert(ClockId(22), (None, kani::any()));
+        // `other` is the removed source (22) or any never-registered id
+        let other: u64 = kani::any();
+        kani::assume(other != 11);
+        c.remove_source(ClockId(22));
+        assert!(!c.sources.contains_key(&ClockId(22)) && c.sources.len() == 1);
+        // usability change of a removed / unknown source changes nothing
+        c.source_update(ClockId(other), true);
+        assert!(c.sources.len() == 1 && c.sources.get(&ClockId(11)).unwrap().1 == usable11);
+        // a late measurement of the removed / unknown source
+        let td = c.timedata;
+        let u2 = c.source_message(ClockId(other), KalmanSourceMessage { inner: any_snapshot(other, time) });
+        assert!(SEL_N.load(Relaxed) == 255, "selection never ran");
+        assert!(u2.time_snapshot.is_none() && u2.used_sources.is_none() && u2.source_message.is_none());
+        assert!(c.sources.len() == 1 && c.timedata == td);
+        assert!(c.sources.get(&ClockId(11)).unwrap().0.is_none());
+        assert!(STEPS.load(Relaxed) == 0 && FREQS.load(Relaxed) == 0 && LEAPS.load(Relaxed) == 0);
+        kani::cover!(other == 22, "removed source reachable");
+        kani::cover!(other != 22, "unknown source reachable");
+    }
+}
+
+/// C37 (b): the usability flag follows the last report for that source, a registered source's
+/// message is stored and selection then sees it only if it was last reported usable.
+harness! {
+    #[kani::stub(super::select::select, select_stub)]
+    #[kani::stub(super::combiner::combine, combine_stub)]
+    #[kani::stub(super::source::KalmanState::progress_time, progress_time_stub)]
+    #[kani::stub(std::process::exit, exit_stub)]
+    #[kani::unwind(3)]
+    fn c37_b_registered_message_counts_only_if_last_reported_usable() {
+        let time = NtpTimestamp::from_bits(kani::any());
+        let mut c = any_controller();
+        c.sources.insert(ClockId(11), (None, kani::any()));
+        let flag: bool = kani::any();
+        c.source_update(ClockId(11), flag);
+        assert!(c.sources.get(&ClockId(11)).unwrap().1 == flag);
+        SEL_RETURN_ALL.store(false, Relaxed);
+        let _ = c.source_message(ClockId(11), KalmanSourceMessage { inner: any_snapshot(11, time) });
+        assert!(c.sources.get(&ClockId(11)).unwrap().0.is_some());
+        assert!(SEL_N.load(Relaxed) == flag as u8);
+        kani::cover!(flag, "usable reachable");
+    }
+}
+
+harness! {
+    #[kani::stub(super::select::select, select_stub)]
+    #[kani::stub(super::combiner::combine, combine_stub)]
+    #[kani::stub(super::source::KalmanState::progress_time, progress_time_stub)]
+    #[kani::stub(std::process::exit, exit_stub)]
+    #[kani::unwind(4)]
+    fn c03_canary_unusable_sources_are_candidates() {
+        let time = NtpTimestamp::from_bits(kani::any());
+        let (mut c, has, _usable) = controller_with_one_source(time);
+        SEL_RETURN_ALL.store(false, Relaxed);
+        let _ = c.update_clock(time);
+        assert!(SEL_N.load(Relaxed) == has as u8);
+    }
+}
+
 #[cfg(all(kani, test))]
 mod replay {
     use super::*;
